@@ -7,6 +7,7 @@ import (
 	"encoding/json"
 	"fmt"
 	"hash/fnv"
+	"strconv"
 	"strings"
 	"testing"
 	"time"
@@ -119,7 +120,12 @@ func genDialogSnippet(g *gen, c *Cfg, li int, bi int) []Op {
 	var ops []Op
 	ops = append(ops, mk("INVITE", 1, "<"+fromURI+">;tag="+fromTag, "<"+toURI+">", []string{uaVia}, uaIP, 5060, nil, "INVITE "+ruri+" SIP/2.0"))
 	var promise []sipwire.Header
-	switch g.intn(5) {
+	switch g.intn(7) {
+	case 5:
+		// the lifetime a registrar or notifier would read: the expires parameter of Contact, no Expires header
+		promise = []sipwire.Header{{Name: "Contact", Value: "<sip:callee@" + beIP + ":" + strconv.Itoa(bePort) + ">;expires=1800"}}
+	case 6:
+		promise = []sipwire.Header{{Name: "Contact", Value: "\"C\" <sip:callee@" + beIP + ">;q=0.5;expires=600"}, {Name: "Min-Expires", Value: "1800"}, {Name: "Min-SE", Value: "900"}}
 	case 0:
 		promise = []sipwire.Header{{Name: "Session-Expires", Value: "1800;refresher=uac"}, {Name: "Supported", Value: "timer"}}
 	case 1:
